@@ -83,6 +83,40 @@ CLAIMS = {
          "catches the as-shipped one-shot-iterable defect; the monitor judges real SimpleService histories (IPv4/IPv6 "
          "endpoints, notify_once with list / tuple / iterator / generator / dict view, cyclic rounds, refused "
          "subscriptions, counters next to the wrap); traces validated against SDTrace.tla", "DESIGN.md §7 C17", TECH, TRUST),
+ "C01": ("model_checking",
+         "TLC checks the round-trip, length, concatenation and truncation laws of Wire.tla (EncMsg/DecMsg/DecAll) on 31932 "
+         "enumerated boundary values; the real build / parse / datagram_received are recorded on the boundary domain, on random "
+         "full-range messages incl. payloads around 64 KiB, on every small length value and on truncations, and TLC compares "
+         "every record byte for byte / field by field with the specification", "DESIGN.md §7 C01", FT, FN),
+ "C02": ("model_checking",
+         "encoding is specified as a relation (ValidLayout: the bytes decode, with the TLA+ decoder, to exactly the original "
+         "option runs of every entry), so any sharing strategy is accepted; TLC checks the SD laws on the boundary domain and "
+         "judges every recorded assign_option_indexes().build() / send_sd of messages with shared, repeated, overlapping runs, "
+         "runs of 0..17 options, up to 300 distinct options and over-wide fields: valid layout, or an error exactly when the "
+         "message is not representable", "DESIGN.md §7 C02", FT, FN),
+ "C03": ("model_checking",
+         "decoder half: TLC (total TLA+ decoders of Wire.tla) classifies every input of a mutation corpus: value + unconsumed "
+         "suffix, parse error, or Unicode error only for non-ASCII configuration text, any other exception or a time-out is a "
+         "violation; live half: twin runs of a real started stack with and without a rejected datagram (nine classes, every "
+         "position) must be observably identical incl. a state probe, compared in TLC; service endpoint never raises",
+         "DESIGN.md §7 C03", FT, FN),
+ "C18": ("model_checking",
+         "TLC explores Stream.tla exhaustively: every stream of <= 3-4 abstract messages incl. invalid headers and truncations, "
+         "every segmentation and every interleaving of reader and transport yields the results of datagram decoding (a spec "
+         "mutant is caught); the real SOMEIPHeader.read on an asyncio.StreamReader is run for every cut position, pairs of cuts, "
+         "1-byte chunks and random cuts and TLC compares the result sequence with Wire!StreamResults", "DESIGN.md §7 C18",
+         "TLA+ state machine of the stream reader model-checked over all chunkings; recorded runs of the real reader evaluated against Wire.tla in TLC", FN),
+ "C19": ("model_checking",
+         "TLC checks the wildcard laws of Match.tla on all 54 x 54 pairs of descriptions (symmetry, monotonicity, find/offer "
+         "duality, subscribe and for_service rules); every row of the truth tables is evaluated on the real functions under "
+         "several concretisations incl. the neighbours of the wildcard constants and compared by TLC", "DESIGN.md §7 C19",
+         "TLA+ functional specification (Match.tla) model-checked exhaustively; truth tables replayed on the real functions and compared in TLC",
+         "exhaustive over the abstract domain {c1, c2, ANY} per field (representative: the code only compares for equality)"),
+ "C20": ("model_checking",
+         "TLC checks decode o encode o decode = decode on the boundary domain of Wire.tla; every accepted input of a corpus of "
+         "valid encodings, an independent non-canonical encoder, mutations and random strings is re-encoded by the real code and "
+         "decoded again, and TLC compares with the TLA+ decoder's value of the input (kept information: unknown option types, "
+         "flag bits, protocol numbers, unreferenced options, raw indexes and counts)", "DESIGN.md §7 C20", FT, FN),
 }
 claimed = sorted(CLAIMS)
 m = {"version": 1, "setup_cmd": "./setup.sh",
